@@ -4,9 +4,9 @@
 import json, os, re, shutil, sys
 
 ROOT = os.path.dirname(os.path.dirname(os.path.abspath(__file__)))
-ids = sys.argv[1:] or sorted(d for d in os.listdir("/tmp/wt") if re.match(r"C\d\db?$", d))
+ids = sys.argv[1:] or sorted(d for d in os.listdir("/tmp/wt") if re.match(r"C\d\d[bc]?$", d))
 for wtname in ids:
-    pid = wtname.rstrip("b")
+    pid = wtname.rstrip("bc")
     outd = "/tmp/wt/%s/_out" % wtname
     if not os.path.isdir(outd):
         continue
